@@ -104,7 +104,7 @@ func genC19(o *hx.Out, tier string) {
 			"-9223372036854775808", " | ", "1 | 2", "1 |2"}
 		if len(e.Consts) > 0 {
 			n := e.Consts[r.Intn(len(e.Consts))].Name
-			texts = append(texts, n, strings.ToLower(n), n+" ", n+" | "+n, n+" | 4", n+" | nope")
+			texts = append(texts, n, strings.ToLower(n), n+" ", n+" | "+n, n+" | 4", n+" | nope", n+" | ", " | "+n, n+" |", "4 | ", n+" |  | "+n)
 		}
 		for _, t := range texts {
 			impl := hx.Safe(func() string {
